@@ -123,14 +123,51 @@ def pyargs(c):
     return a + [dec(x) for x in rest]
 
 
+STATUS_VIEWS = {"job_status": "load_job_status", "running_job_status": "load_job_status", "job_status_set": "store_job_status"}
+RET_PSEUDO = {"job_status": "val", "running_job_status": "val", "job_status_set": "none"}
+
+
+def evaluator_view(st, c):
+    """the evaluator's way to the status: `Job.status` (getter / setter) and `RunningJob.status` on top of the storage"""
+    from deephyper.evaluator import Job, RunningJob
+    from deephyper.evaluator._job import JobStatus
+
+    if c[0] == "job_status":
+        return Job(c[1], {}, None, st).status.value
+    if c[0] == "running_job_status":
+        return RunningJob(c[1], {}, st, None).status.value
+    job = Job(c[1], {}, None, st)
+    job.status = JobStatus(dec(c[2]))
+    return None
+
+
+def to_storage_call(c):
+    """the storage method call behind an evaluator-level status access"""
+    if c[0] in STATUS_VIEWS:
+        return [STATUS_VIEWS[c[0]]] + list(c[1:])
+    return c
+
+
+def expected_view_out(c, y):
+    """what the evaluator-level access must show, given what the storage method answers (`y`)"""
+    if c[0] in ("job_status", "running_job_status") and y["k"] == "val":
+        from deephyper.evaluator._job import JobStatus
+
+        try:
+            return {"k": "val", "v": {"i": JobStatus(dec(y["v"])).value}}
+        except (ValueError, TypeError) as e:
+            return {"k": "error", "v": type(e).__name__}
+    return y
+
+
 def call_real(st, c):
     """one method call on a real storage -> OUT (wire form)"""
     name = c[0]
     try:
-        r = getattr(st, name)(*pyargs(c))
+        r = evaluator_view(st, c) if name in STATUS_VIEWS else getattr(st, name)(*pyargs(c))
     except (KeyError, ValueError, TypeError, AttributeError, IndexError, RuntimeError) as e:
         return {"k": "error", "v": type(e).__name__}
-    kind = RET[name]
+    kind = RET.get(name) or RET_PSEUDO[name]
     if kind == "none":
         return {"k": "none"} if r is None else {"k": "val", "v": enc(r)}
     if kind == "id":
@@ -338,7 +375,20 @@ def run_history(st, calls, label, judge=True):
             out = call_real(st, c)
         outs.append(out)
         if judge:
-            sm.observe(c, out)
+            if c[0] in ("job_status", "running_job_status"):
+                # the evaluator-level getter shows JobStatus(<stored status>) (ValueError if that is no JobStatus)
+                j = sm.jobs.get(c[1])
+                if j is None:
+                    if out["k"] != "error":
+                        sm.flag("phantom", c[0], {"job": c[1], "got": out})
+                elif not (j["opaque"] or sm.searches[j["sid"]].get("opaque")):
+                    want = expected_view_out(c, {"k": "val", "v": j["rec"].get("status")})
+                    if cout(out) != cout(want):
+                        sm.flag("read-your-writes", c[0], {"job": c[1], "got": out, "want": want})
+            elif c[0] == "job_status_set":
+                sm.observe(to_storage_call(c), out)
+            else:
+                sm.observe(c, out)
         if snap_bad is None and snap.kept:
             snap_bad = snap.check(idx)
     return outs, sm.bad, snap_bad
@@ -630,6 +680,10 @@ def gen_history(rng, n, malformed):
             "ljobs": ["load_jobs", [rng.choice(jids) for _ in range(rng.randint(0, 3))] if jids and rng.random() < 0.9 else [jid, rng.choice(BAD_IDS)]],
             "lstatus": ["load_job_status", jid],
         }[kind]
+        if c[0] == "load_job_status" and rng.random() < 0.5:
+            c = [rng.choice(["job_status", "running_job_status"]), c[1]]
+        elif c[0] == "store_job_status" and rng.random() < 0.5:
+            c = ["job_status_set", c[1], c[2]]
         calls.append(c)
         outs.append(call_real(st, c))
     return calls
@@ -668,7 +722,7 @@ def long_worker(item):
                           {"kind": "history", "storage": "both", "calls": calls}, d)
             judge_history(sink, calls, "SharedMemoryStorage", souts, sbad, ssnap, factory)
             del sts
-            reqs.append({"op": "hist", "s": t, "calls": calls})
+            reqs.append({"op": "hist", "s": t, "calls": [to_storage_call(c) for c in calls]})
             metas.append((calls, outs))
         with common.LeanDriver("C13") as drv:
             reps = drv.ask_all(reqs)
@@ -678,6 +732,7 @@ def long_worker(item):
                 if y["k"] == "oom":
                     sink.count("model:out-of-scope-call")
                     break  # the history overwrote a bookkeeping key: the model (and the property) stop here
+                y = expected_view_out(calls[i], y)
                 if cout(x) != cout(y):
                     sink.mismatch({"kind": "history", "calls": calls[: i + 1]}, {"call": i, "impl": cout(x), "model": cout(y)})
                     break
@@ -1029,10 +1084,10 @@ def call_small(st, c):
     """call_real with the digesting encoder (arguments are small wire values)"""
     name = c[0]
     try:
-        r = getattr(st, name)(*pyargs(c))
+        r = evaluator_view(st, c) if name in STATUS_VIEWS else getattr(st, name)(*pyargs(c))
     except (KeyError, ValueError, TypeError, AttributeError, IndexError, RuntimeError) as e:
         return {"k": "error", "v": type(e).__name__}
-    kind = RET[name]
+    kind = RET.get(name) or RET_PSEUDO[name]
     if kind == "none":
         return {"k": "none"} if r is None else {"k": "val", "v": enc_small(r)}
     if kind == "vals":
@@ -1064,7 +1119,7 @@ def contended_client(st, cid, prog, jids, sids, barrier, q):
             elif k == "sin":
                 c = ["store_job_in", j, v, None]
             elif k == "sstatus":
-                c = ["store_job_status", j, {"i": 10_000 * cid + seq}]
+                c = [("store_job_status", "job_status_set")[seq % 2], j, {"i": (cid + seq) % 5}]
             elif k == "ssv_own":
                 c = ["store_search_value", s, f"c{cid}_{op[2]}", v]
             elif k == "ssv_shared":
@@ -1072,7 +1127,7 @@ def contended_client(st, cid, prog, jids, sids, barrier, q):
             elif k == "ljob":
                 c = ["load_job", j]
             elif k == "lstatus":
-                c = ["load_job_status", j]
+                c = [("load_job_status", "running_job_status", "job_status")[seq % 3], j]
             elif k == "lsv_own":
                 c = ["load_search_value", s, f"c{cid}_{op[2]}"]
             elif k == "lsv_shared":
@@ -1105,6 +1160,7 @@ STORE_METHOD_LOC = {
     "store_job": lambda c: ("job", c[1], c[2], c[3]),
     "store_job_out": lambda c: ("job", c[1], "out", c[2]),
     "store_job_status": lambda c: ("job", c[1], "status", c[2]),
+    "job_status_set": lambda c: ("job", c[1], "status", c[2]),
     "store_job_in": lambda c: ("job", c[1], "in", {"d": [["args", c[2]], ["kwargs", c[3]]]}),
     "store_search_value": lambda c: ("search", c[1], c[2], c[3]),
 }
@@ -1276,11 +1332,34 @@ def contended_round(ck, rng, nclients, nops, big, njobs=2, attempt_seed=None):
                                 {"location": list(loc), "client": cid, "got": o, "want": cv(mine[loc])})
                 elif o["k"] == "val":
                     judge(loc, o["v"], f"load_search_value by client {cid}", midrun=True)
-            elif c[0] == "load_job_status" and o["k"] == "val":
+            elif c[0] in ("load_job_status", "running_job_status", "job_status") and o["k"] == "val":
+                ck.count("contended:status-read-via:" + c[0])
                 loc = ("job", c[1], "status")
                 if _ck(o["v"]) not in (legal.get(loc, set()) | {_ck({"i": 0})}):
                     ck.fail(f"C13|lost-value|store_job_status|{tag}", "load_job_status returned a value nobody stored", case, {"got": o})
     del st
+
+
+def storage_factory(ck):
+    """`Storage.create("memory")`, `connect()`, `is_connected()` : the storage an Evaluator builds by default"""
+    from deephyper.evaluator.storage import MemoryStorage, Storage
+
+    st = Storage.create("memory")
+    case = {"kind": "factory"}
+    ck.case(case, nontrivial=False)
+    ck.count("schedule:factory")
+    ok = isinstance(st, MemoryStorage) and st.is_connected() is False and st.connect() is st and st.is_connected() is True
+    calls = [["create_new_search"], ["create_new_job", "0"], ["store_job_metadata", "0.0", "a", {"i": 1}], ["job_status_set", "0.0", {"i": 2}],
+             ["running_job_status", "0.0"], ["load_job", "0.0"]]
+    outs, bad, snap_bad = run_history(st, calls, "MemoryStorage")
+    try:
+        Storage.create("no-such-backend")
+        ok = False
+    except ValueError:
+        pass
+    if not ok or bad or snap_bad or outs[4] != {"k": "val", "v": {"i": 2}}:
+        ck.fail("C13|read-your-writes|Storage.create|MemoryStorage", "the storage built by Storage.create('memory') does not behave like MemoryStorage", case,
+                {"outs": outs, "bad": bad})
 
 
 def thread_stress(ck, nthreads, per_thread):
@@ -1468,6 +1547,9 @@ def run(ck):
         prefixes = [tuple(rng.choice(KINDS) for i in range(rng.randint(3, 6))) for _ in range(ck.pick(40, 60))]
         items.append((prefixes, rng.randint(0, 5), True, pre))
     long_items = [(rng.randrange(1 << 30), ck.pick(40, 150), 200, True) for _ in range(ck.pick(6, 28))]
+    # a sample of the generated histories in this process too (the line-coverage probe only sees this process)
+    long_worker((rng.randrange(1 << 30), ck.pick(15, 40), 200, False)).fold(ck)
+    storage_factory(ck)
     nworkers = min(ck.pick(6, 14), os.cpu_count() or 2)
     with ProcessPoolExecutor(max_workers=nworkers, mp_context=mp.get_context("fork")) as pool:
         f1 = [pool.submit(fan_worker, it) for it in items]
@@ -1511,11 +1593,12 @@ def replay(ck, case, drv=None, quiet=False):
                     d = compare_outs(sink, case, "memory", res["MemoryStorage"], "shared", res["SharedMemoryStorage"])
                     if d is not None:
                         sink.fail(f"C13|shared-equals-memory|{calls[d['call']][0]}|SharedMemoryStorage", "SharedMemoryStorage answers differently", case, d)
-                rep = drv.ask({"op": "hist", "s": 999_999, "calls": calls})
+                rep = drv.ask({"op": "hist", "s": 999_999, "calls": [to_storage_call(c) for c in calls]})
                 outs = next(iter(res.values()))
                 for i, (x, y) in enumerate(zip(outs, rep["outs"])):
                     if y["k"] == "oom":
                         break
+                    y = expected_view_out(calls[i], y)
                     if cout(x) != cout(y):
                         sink.mismatch(case, {"call": i, "impl": cout(x), "model": cout(y)})
                         break
